@@ -76,13 +76,12 @@ Proof.
     assert (A : forall v, has_char lpar v = false -> has_char lpar (append v (String usc EmptyString)) = false).
     { intros v Hv. rewrite has_char_append, Hv. reflexivity. }
     destruct (nochar_split lpar _ _ _ _ (A u S1) (A u' S1') E') as [E1 _].
-    symmetry. apply (append_inv_tail_s _ _ _ E1).
+    apply (append_inv_tail_s _ _ _ E1).
 Qed.
 Lemma split_name_k_inj : forall u n k k', 0 < k -> 0 < k' -> split_name u k n = split_name u k' n -> k = k'.
 Proof.
   intros u n k k' Hk Hk' H. unfold split_name in H. apply append_inj_l in H. apply append_inj_l in H.
-  rewrite <- !append_assoc_s in H. apply append_inv_tail_s in H. apply append_inv_tail_s in H.
-  apply zs_inj; assumption.
+  apply append_inv_tail_s in H. apply zs_inj; assumption.
 Qed.
 (* a name that starts with "Edfa_" is neither a safe uid nor a span of one *)
 Lemma edfa_not_base : forall u w, safe u -> ~ base_ok u (append "Edfa_" w).
@@ -112,3 +111,167 @@ Proof.
     { apply (prefix_sep usc "preamp" u w (append "(" (append (zs k) (append "/" (append (zs n) ")"))))); [reflexivity|]. exact E. }
     rewrite P in S4. discriminate.
 Qed.
+
+(* ---------- uids of the split chain ---------- *)
+Lemma zrange_pos : forall n x, In x (zrange 1 (n + 1)) -> 0 < x.
+Proof. intros n x H. unfold zrange in H. apply in_map_iff in H. destruct H as (k & Hk & _). lia. Qed.
+Lemma zrange_nodup : forall a b, NoDup (zrange a b).
+Proof.
+  intros a b. unfold zrange. apply FinFun.Injective_map_NoDup; [|apply seq_NoDup].
+  intros x y H. lia.
+Qed.
+Lemma NoDup_map_in : forall {A B} (f : A -> B) l, (forall x y, In x l -> In y l -> f x = f y -> x = y) -> NoDup l -> NoDup (map f l).
+Proof.
+  intros A B f l Hinj ND. induction ND as [|x l Hx ND IH]; [constructor|]. cbn. constructor.
+  - intro Hin. apply in_map_iff in Hin. destruct Hin as (y & Hy1 & Hy2).
+    assert (y = x) by (apply Hinj; [right; exact Hy2 | left; reflexivity | exact Hy1]). subst y. contradiction.
+  - apply IH. intros a b Ha Hb. apply Hinj; right; assumption.
+Qed.
+Lemma split_fib_names : forall c f r, split_fib c f = Ok r ->
+  NoDup (names r) /\ forall x, In x (names r) -> base_ok (f_name f) x.
+Proof.
+  intros c f r H. unfold split_fib in H.
+  destruct (calc_len (f_len f) (c_min c) (c_max c) (c_target c)) as [[len n]|]; [|discriminate]. cbn [bind] in H.
+  destruct (n =? 1).
+  - inversion H; subst r. cbn. split; [repeat constructor; intros []|]. intros x [<-|[]]. left. reflexivity.
+  - destruct (lumped_inside f len); [|discriminate]. inversion H; subst r. unfold names. rewrite map_map. cbn [el_name sub_span f_name].
+    split.
+    + apply NoDup_map_in; [|apply zrange_nodup]. intros x y Hx Hy E.
+      apply (split_name_k_inj (f_name f) n x y (zrange_pos n x Hx) (zrange_pos n y Hy) E).
+    + intros x Hx. apply in_map_iff in Hx. destruct Hx as (k & <- & _). right. exists k, n. reflexivity.
+Qed.
+Lemma split_chain_names_in : forall c l s, split_chain c l = Ok s ->
+  forall x, In x (names s) -> exists u, In u (names l) /\ base_ok u x.
+Proof.
+  intros c. induction l as [|e t IH]; intros s H x Hx.
+  - inversion H; subst s. contradiction.
+  - destruct e as [f|n lo|a]; cbn [split_chain] in H.
+    + destruct (split_fib c f) as [r|] eqn:Ef; [|discriminate]. cbn [bind] in H.
+      destruct (split_chain c t) as [b|] eqn:Et; [|discriminate]. cbn [bind] in H. inversion H; subst s.
+      rewrite names_app in Hx. apply in_app_or in Hx. destruct Hx as [Hx|Hx].
+      * exists (f_name f). split; [left; reflexivity | apply (proj2 (split_fib_names c f r Ef) x Hx)].
+      * destruct (IH b eq_refl x Hx) as (u & Hu & Hb). exists u. split; [right; exact Hu | exact Hb].
+    + destruct (split_chain c t) as [b|] eqn:Et; [|discriminate]. cbn [bind] in H. inversion H; subst s.
+      destruct Hx as [<-|Hx]; [exists n; split; [left; reflexivity | left; reflexivity]|].
+      destruct (IH b eq_refl x Hx) as (u & Hu & Hb). exists u. split; [right; exact Hu | exact Hb].
+    + destruct (split_chain c t) as [b|] eqn:Et; [|discriminate]. cbn [bind] in H. inversion H; subst s.
+      destruct Hx as [<-|Hx]; [exists (a_name a); split; [left; reflexivity | left; reflexivity]|].
+      destruct (IH b eq_refl x Hx) as (u & Hu & Hb). exists u. split; [right; exact Hu | exact Hb].
+Qed.
+Lemma NoDup_app_intro : forall {A} (a b : list A), NoDup a -> NoDup b -> (forall x, In x a -> In x b -> False) -> NoDup (a ++ b).
+Proof.
+  intros A a b Na Nb D. induction Na as [|x a Hx Na IH]; [exact Nb|]. cbn. constructor.
+  - intro Hin. apply in_app_or in Hin. destruct Hin as [Hin|Hin]; [contradiction | apply (D x); [left; reflexivity | exact Hin]].
+  - apply IH. intros y Hy. apply D. right. exact Hy.
+Qed.
+Lemma split_chain_nodup : forall c l s, NoDup (names l) -> Forall safe (names l) -> split_chain c l = Ok s -> NoDup (names s).
+Proof.
+  intros c. induction l as [|e t IH]; intros s ND SF H.
+  - inversion H. constructor.
+  - cbn [names map] in ND, SF. inversion ND as [|? ? Hn ND']; subst. inversion SF as [|? ? Se SF']; subst.
+    assert (Tail : forall b x, split_chain c t = Ok b -> In x (names b) -> base_ok (el_name e) x -> False).
+    { intros b x Hb Hx Hbase. destruct (split_chain_names_in c t b Hb x Hx) as (u & Hu & Hub).
+      assert (Su : safe u) by (rewrite Forall_forall in SF'; apply SF'; exact Hu).
+      pose proof (base_ok_inj _ _ x Se Su Hbase Hub) as E. subst u. contradiction. }
+    destruct e as [f|n lo|a]; cbn [split_chain] in H.
+    + destruct (split_fib c f) as [r|] eqn:Ef; [|discriminate]. cbn [bind] in H.
+      destruct (split_chain c t) as [b|] eqn:Et; [|discriminate]. cbn [bind] in H. inversion H; subst s.
+      destruct (split_fib_names c f r Ef) as [Nr Br]. rewrite names_app. apply NoDup_app_intro; [exact Nr | apply (IH b ND' SF' eq_refl)|].
+      intros x Hx1 Hx2. apply (Tail b x eq_refl Hx2). apply Br. exact Hx1.
+    + destruct (split_chain c t) as [b|] eqn:Et; [|discriminate]. cbn [bind] in H. inversion H; subst s.
+      cbn [names map el_name]. constructor; [|apply (IH b ND' SF' eq_refl)].
+      intro Hin. apply (Tail b n eq_refl Hin). left. reflexivity.
+    + destruct (split_chain c t) as [b|] eqn:Et; [|discriminate]. cbn [bind] in H. inversion H; subst s.
+      cbn [names map el_name]. constructor; [|apply (IH b ND' SF' eq_refl)].
+      intro Hin. apply (Tail b (a_name a) eq_refl Hin). left. reflexivity.
+Qed.
+
+(* ---------- inserted amplifiers ---------- *)
+Lemma inline_names_in : forall s z, In z (inline_names s) -> exists y, In y (names s) /\ z = inline_name y.
+Proof.
+  induction s as [|e t IH]; intros z H; [contradiction|].
+  destruct e as [f|n lo|a]; cbn [inline_names] in H.
+  - destruct t as [|[g|n lo|a] t2]; cbn [inline_names] in H.
+    + contradiction.
+    + destruct H as [<-|H]; [exists (f_name f); split; [left; reflexivity | reflexivity]|].
+      destruct (IH z H) as (y & Hy & E). exists y. split; [right; exact Hy | exact E].
+    + destruct (IH z H) as (y & Hy & E). exists y. split; [right; exact Hy | exact E].
+    + destruct (IH z H) as (y & Hy & E). exists y. split; [right; exact Hy | exact E].
+  - destruct (IH z H) as (y & Hy & E). exists y. split; [right; exact Hy | exact E].
+  - destruct (IH z H) as (y & Hy & E). exists y. split; [right; exact Hy | exact E].
+Qed.
+Lemma inline_name_inj : forall x y, inline_name x = inline_name y -> x = y.
+Proof. intros x y H. unfold inline_name in H. apply append_inj_l in H. exact H. Qed.
+Lemma inline_names_nodup : forall s, NoDup (names s) -> NoDup (inline_names s).
+Proof.
+  induction s as [|e t IH]; intro ND; [constructor|]. cbn [names map] in ND. inversion ND as [|? ? Hn ND']; subst.
+  destruct e as [f|n lo|a]; cbn [inline_names]; try (apply IH; exact ND').
+  destruct t as [|[g|n lo|a] t2]; try (apply IH; exact ND').
+  constructor; [|apply IH; exact ND'].
+  intro Hin. destruct (inline_names_in _ _ Hin) as (y & Hy & E). apply inline_name_inj in E. cbn [el_name] in Hn. subst y. contradiction.
+Qed.
+
+(* ---------- all uids of a designed line ---------- *)
+Lemma bname_form : forall l s, exists w, bname l s = append "Edfa_" (append "booster_" w).
+Proof. intros. eexists. unfold bname, booster_name. reflexivity. Qed.
+Lemma pname_form : forall l s, exists w, pname l s = append "Edfa_" (append "preamp_" w).
+Proof. intros. eexists. unfold pname, preamp_name. reflexivity. Qed.
+Lemma names_s_safe : forall c l s, Forall safe (names l) -> split_chain c l = Ok s ->
+  forall x, In x (names s) -> exists u, safe u /\ base_ok u x.
+Proof.
+  intros c l s SF H x Hx. destruct (split_chain_names_in c l s H x Hx) as (u & Hu & Hb).
+  exists u. split; [rewrite Forall_forall in SF; apply SF; exact Hu | exact Hb].
+Qed.
+
+(* input uids distinct and safe (no "(", not starting with "Edfa", "booster" or "preamp"): the uids of the designed
+   line are distinct - no hypothesis on the generated names any more *)
+Theorem design_names_unique : forall c l l', no_auto (l_els l) -> design_line c l = Ok l' ->
+  NoDup (names (l_els l)) -> Forall safe (names (l_els l)) -> NoDup (names (l_els l')).
+Proof.
+  intros c l l' Hna H ND SF. unfold design_line in H.
+  destruct (add_missing c l) as [l1|] eqn:E1; [|discriminate]. cbn [bind] in H.
+  destruct (pad_chain c (conn c (l_els l1))) as [p|] eqn:E2; [|discriminate]. cbn [bind] in H. inversion H; subst l'.
+  cbn [l_els with_els]. destruct (pad_chain_runs c _ _ E2) as (_ & _ & _ & _ & _ & Np). rewrite Np, conn_names.
+  destruct (ends_shape c l l1 Hna E1) as (s & B & A & i & Es & Hs & Ei & El & HB & HA & _). subst l1. cbn [l_els with_els].
+  eapply Permutation_NoDup; [apply Permutation_sym; apply (inline_names_perm _ _ Ei)|].
+  assert (IN : inline_names (B ++ s ++ A) = inline_names s).
+  { destruct HB as [HB|(mu & HB)]; destruct HA as [HA|(mu' & HA)]; subst B A; unfold new_amp; cbn [app];
+      rewrite ?app_nil_r; cbn [inline_names]; rewrite ?inline_names_amp_r; reflexivity. }
+  rewrite IN, !names_app.
+  pose proof (split_chain_nodup c _ s ND SF Es) as N1.
+  pose proof (inline_names_nodup s N1) as N2.
+  pose proof (names_s_safe c _ s SF Es) as SS.
+  assert (N3 : forall w, ~ In (append "Edfa_" w) (names s)).
+  { intros w Hin. destruct (SS _ Hin) as (u & Su & Hb). exact (edfa_not_base u w Su Hb). }
+  assert (N5 : forall z, In z (inline_names s) -> exists y, In y (names s) /\ z = append "Edfa_" y).
+  { intros z Hz. destruct (inline_names_in s z Hz) as (y & Hy & E). exists y. split; [exact Hy | exact E]. }
+  destruct (bname_form l s) as (wb & Eb). destruct (pname_form l s) as (wp & Ep).
+  assert (N7 : ~ In (bname l s) (inline_names s)).
+  { intro Hin. destruct (N5 _ Hin) as (y & Hy & E). rewrite Eb in E. apply append_inj_l in E. subst y.
+    destruct (SS _ Hy) as (u & Su & Hb). exact (booster_not_base u wb Su Hb). }
+  assert (N8 : ~ In (pname l s) (inline_names s)).
+  { intro Hin. destruct (N5 _ Hin) as (y & Hy & E). rewrite Ep in E. apply append_inj_l in E. subst y.
+    destruct (SS _ Hy) as (u & Su & Hb). exact (preamp_not_base u wp Su Hb). }
+  assert (N6 : bname l s <> pname l s).
+  { rewrite Eb, Ep. intro E. apply append_inj_l in E. cbn in E. discriminate. }
+  assert (NB : ~ In (bname l s) (names s)) by (rewrite Eb; apply N3).
+  assert (NP : ~ In (pname l s) (names s)) by (rewrite Ep; apply N3).
+  assert (NI : forall z, In z (names s) -> In z (inline_names s) -> False).
+  { intros z Hz Hi. destruct (N5 z Hi) as (y & _ & E). subst z. exact (N3 y Hz). }
+  assert (Core : NoDup (names s ++ inline_names s)) by (apply NoDup_app_intro; assumption).
+  destruct HB as [HB|(mu & HB)]; destruct HA as [HA|(mu' & HA)]; subst B A; unfold new_amp; cbn [names map app el_name a_name];
+    rewrite ?app_nil_r.
+  - exact Core.
+  - rewrite <- app_assoc. apply NoDup_app_intro; [exact N1| |].
+    + cbn [app]. constructor; [exact N8 | exact N2].
+    + intros z Hz [<-|Hi]; [exact (NP Hz) | exact (NI z Hz Hi)].
+  - constructor; [|exact Core]. intro Hin. apply in_app_or in Hin. destruct Hin as [Hin|Hin]; [exact (NB Hin) | exact (N7 Hin)].
+  - constructor.
+    + intro Hin. rewrite <- app_assoc in Hin. apply in_app_or in Hin. destruct Hin as [Hin|Hin]; [exact (NB Hin)|].
+      cbn [app] in Hin. destruct Hin as [E|Hin]; [exact (N6 (eq_sym E)) | exact (N7 Hin)].
+    + rewrite <- app_assoc. apply NoDup_app_intro; [exact N1| |].
+      * cbn [app]. constructor; [exact N8 | exact N2].
+      * intros z Hz [<-|Hi]; [exact (NP Hz) | exact (NI z Hz Hi)].
+Qed.
+Example ex_names_safe : NoDup (names (l_els ex_line)) /\ Forall safe (names (l_els ex_line)).
+Proof. split; [repeat constructor; cbn; intuition discriminate | repeat constructor]. Qed.
